@@ -22,3 +22,29 @@ MUTANTS = [
  {"id": "c01-fresh-space", "prop": "C01", "file": "adcgen/func.py",
   "old": "KroneckerDelta(q_idx, Index('a', above_fermi=True))", "new": "KroneckerDelta(q_idx, Index('i', below_fermi=True))"},
 ]
+MUTANTS += [
+ {"id": "c06-braket-sign", "prop": "C06", "file": "adcgen/sympy_objects.py",
+  "old": "                if bra_ket_sym is S.NegativeOne:  # add another -1\n                    sign_u += 1",
+  "new": "                if bra_ket_sym is S.NegativeOne:  # add another -1\n                    sign_u += 2"},
+ {"id": "c06-key-noninjective", "prop": "C06", "file": "adcgen/indices.py",
+  "old": "                idx.name[0],\n                idx.name,\n", "new": "                idx.name[0],\n"},
+ {"id": "c06-delta-spin", "prop": "C06", "file": "adcgen/sympy_objects.py",
+  "old": "if spi and spj and spi != spj:  # delta_ab / delta_ba", "new": "if spi != spj:  # delta_ab / delta_ba"},
+ {"id": "c06-delta-noncanonical", "prop": "C06", "file": "adcgen/sympy_objects.py",
+  "old": "        if i != min(i, j, key=sort_idx_canonical):\n            return cls(j, i)", "new": "        pass"},
+ {"id": "c06-sym-sign", "prop": "C06", "file": "adcgen/sympy_objects.py",
+  "old": "                if bra_ket_sym is S.NegativeOne:\n                    negative_sign = True",
+  "new": "                if bra_ket_sym is S.One:\n                    negative_sign = True"},
+]
+HARMLESS = [
+ # exchanging identical bra and ket tuples is unobservable
+ {"id": "c06-h-swap-names", "prop": "C06", "file": "adcgen/sympy_objects.py",
+  "old": "                if lower_names < upper_names:\n                    return True",
+  "new": "                if lower_names <= upper_names:\n                    return True"},
+
+ # any strict total order of bra vs ket is a valid canonical form
+ {"id": "c06-h-spin-order", "prop": "C06", "file": "adcgen/sympy_objects.py",
+  "old": "            if spin_l < spin_u:\n                return True", "new": "            if spin_l > spin_u:\n                return True"},
+ {"id": "c06-h-delta-max", "prop": "C06", "file": "adcgen/sympy_objects.py",
+  "old": "if i != min(i, j, key=sort_idx_canonical):", "new": "if i != max(i, j, key=sort_idx_canonical):"},
+]
